@@ -606,6 +606,20 @@ impl Check for C12 {
     fn generate(&self, rng: &mut Rng, tier: Tier, idx: u64) -> Scn {
         let broken = rng.chance(1, 12);
         let program = if broken { textgen::broken_program(rng) } else { textgen::program(rng).0 };
+        // the same source in another byte-level dress (what the parser makes of it is the reference;
+        // tool and library must agree on it)
+        let program = if rng.chance(1, 10) {
+            match rng.below(6) {
+                0 => program.replace('\n', "\r\n"),
+                1 => format!("\u{FEFF}{}", program),
+                2 => format!("{}\0", program),
+                3 => program.replacen('\n', "\n\x0C\n", 1),
+                4 => program.replace("    ", "\t"),
+                _ => format!("{}\n\n\n   \t  ", program),
+            }
+        } else {
+            program
+        };
         let cfg = gen_cfg(rng);
         let mut scn = Scn { program, cfg, cycles: 0, interrupts: vec![], resets: vec![], expect: None, layer: Layer::InProcess, volt_text: vec![], huge_budget: None };
         if rng.chance(1, 6) {
